@@ -230,11 +230,14 @@ type Conn struct {
 
 	cc congestion.CongestionControl
 
+	postCloseSends int
+
 	// knobs and counters for harnesses
 	StreamWindow      int
 	MaxDatagram       int
 	DatagramQueueCap  int
 	OpenStreamErr     func(n int) error // n-th OpenStream call (1-based); nil result = proceed
+	MaxStreams        int               // peer's limit on concurrently open streams we initiated (0 = unlimited)
 	SendDatagramErr   func(n int, p []byte) error
 	OpenStreamCalls   int
 	RecvDatagramCalls int
@@ -319,6 +322,18 @@ func (c *Conn) OpenStream() (*Stream, error) {
 			return nil, err
 		}
 	}
+	if c.MaxStreams > 0 {
+		active := 0
+		for _, s := range c.streams {
+			if int64(s.id)%4 == int64(c.side) && !s.finished() {
+				active++
+			}
+		}
+		if active >= c.MaxStreams {
+			// quic-go returns the POINTER form (streams_map_outgoing.go)
+			return nil, &StreamLimitReachedError{}
+		}
+	}
 	id := StreamID(c.nextStream*4 + int64(c.side))
 	c.nextStream++
 	ab := &half{}
@@ -348,7 +363,16 @@ func (c *Conn) AcceptStream(ctx context.Context) (*Stream, error) {
 
 func (c *Conn) SendDatagram(p []byte) error {
 	c.e.Point("quic", nil, "Conn.SendDatagram")
+	if len(p) > c.MaxDatagram {
+		return &DatagramTooLargeError{MaxDatagramPayloadSize: int64(c.MaxDatagram)}
+	}
 	if c.closed {
+		// quic-go's send queue (32 entries) is not drained once the connection is closed and
+		// Add does not look at the closed flag: 32 sends "succeed", the 33rd reports the error
+		if c.postCloseSends < 32 {
+			c.postCloseSends++
+			return nil
+		}
 		return c.closeErr
 	}
 	if len(p) > c.MaxDatagram {
@@ -371,9 +395,10 @@ func (c *Conn) SendDatagram(p []byte) error {
 func (c *Conn) ReceiveDatagram(ctx context.Context) ([]byte, error) {
 	c.RecvDatagramCalls++
 	c.e.Point("quic", func() bool { return len(c.dgrams) > 0 || c.closed }, "Conn.ReceiveDatagram")
-	if c.closed {
+	if len(c.dgrams) == 0 {
 		return nil, c.closeErr
 	}
+	// quic-go hands out datagrams queued before the close first (datagram_queue.go Receive)
 	d := c.dgrams[0]
 	c.dgrams = c.dgrams[1:]
 	return d, nil
@@ -401,6 +426,7 @@ type Stream struct {
 	rdl    time.Time
 	wdl    time.Time
 
+	stopSeen    bool // the peer's STOP_SENDING was observed by a Write on this side
 	writeClosed bool // Close called
 	writeCancel *StreamErrorCode
 	readCancel  *StreamErrorCode
@@ -433,6 +459,14 @@ func (s *Stream) arm(t time.Time) {
 			s.conn.e.AddTimer(at, func() {})
 		}
 	}
+}
+
+// finished reports whether both directions of the stream are done (it no longer counts against
+// the peer's stream limit).
+func (s *Stream) finished() bool {
+	outDone := s.writeClosed || s.writeCancel != nil || s.out.stop != nil
+	inDone := s.readCancel != nil || s.in.reset != nil || (s.in.fin && len(s.in.buf) == 0)
+	return outDone && inDone
 }
 
 func (s *Stream) StreamID() StreamID       { return s.id }
@@ -541,6 +575,7 @@ func (s *Stream) Write(p []byte) (int, error) {
 			return written, c.closeErr
 		}
 		if s.out.stop != nil {
+			s.stopSeen = true
 			return written, &StreamError{StreamID: s.id, ErrorCode: *s.out.stop, Remote: true}
 		}
 		if passed(s.wdl) {
@@ -568,7 +603,8 @@ func (s *Stream) Write(p []byte) (int, error) {
 // Close closes the write side (FIN). Data written before is still delivered.
 func (s *Stream) Close() error {
 	s.conn.e.Point("quic", nil, "Stream.Close")
-	if s.writeCancel != nil {
+	if s.writeCancel != nil || (s.out.stop != nil && s.stopSeen) {
+		// send_stream.go Close: resetErr is also set by the peer's STOP_SENDING once it was processed
 		return fmt.Errorf("close called for canceled stream %d", s.id)
 	}
 	if s.writeClosed {
